@@ -178,6 +178,9 @@ func (g *c14Group) run(dir string) (line string) {
 		return head + " error newcore"
 	}
 	defer c.Close()
+	// the periodic retry (10 s) must not interleave with the scripted one when the machine is slow
+	c.cron.Unregister("pending_bundles")
+	c.cron.Unregister("clean_store")
 
 	net := &verifNet{}
 	var lmu sync.Mutex
@@ -232,7 +235,7 @@ func (g *c14Group) run(dir string) (line string) {
 			bundles = append(bundles, b)
 			subs = append(subs, c14Tag([]byte(payload))+"|"+c14Id(b.ID()))
 		}
-	case "report", "report2":
+	case "report", "report2", "sreport":
 		// bundles of another node that request a reception report; the node originates the reports
 		for i := 0; i < g.k; i++ {
 			bl := bpv7.Builder().CRC(bpv7.CRC32).Source("dtn://n5/s").Destination(c14Far).ReportTo(c14Rt).
@@ -291,6 +294,35 @@ func (g *c14Group) run(dir string) (line string) {
 		}
 		close(start)
 		wg.Wait()
+	case g.path == "sreport":
+		// status-report generation itself: Core.SendStatusReport for k stored foreign bundles, as
+		// receive()/forward()/localDelivery()/bundleDeletion() call it
+		var bps []BundleDescriptor
+		for i := range bundles {
+			bp := NewBundleDescriptorFromBundle(bundles[i], c.store)
+			bp.Receiver = own
+			bps = append(bps, bp)
+		}
+		if g.mode == "seq" {
+			c14WaitMsStart()
+			for i := range bps {
+				c.SendStatusReport(bps[i], bpv7.ReceivedBundle, bpv7.NoInformation)
+			}
+		} else {
+			var wg sync.WaitGroup
+			start := make(chan struct{})
+			for i := range bps {
+				wg.Add(1)
+				go func(bp BundleDescriptor) {
+					defer wg.Done()
+					<-start
+					c.SendStatusReport(bp, bpv7.ReceivedBundle, bpv7.NoInformation)
+				}(bps[i])
+			}
+			c14WaitMsStart()
+			close(start)
+			wg.Wait()
+		}
 	case g.mode == "seq": // report, report2
 		c14WaitMsStart()
 		for i := range bundles {
@@ -582,13 +614,10 @@ func TestVerifC14(t *testing.T) {
 			for _, path := range []string{"sb", "agent"} {
 				for _, mode := range []string{"seq", "conc"} {
 					for _, tk := range []string{"now", "epoch"} {
-						// every peer situation for the extreme sizes, a seed-dependent one otherwise
+						// every peer situation for the extreme sizes of SendBundle groups, a seed-dependent one otherwise
 						ps := peers
-						if k != 2 && k != 8 && !verifThorough() {
-							ps = []string{peers[rng.intn(4)], peers[rng.intn(4)]}
-							if ps[0] == ps[1] {
-								ps = ps[:1]
-							}
+						if !(path == "sb" && (k == 2 || k == 8)) && !verifThorough() {
+							ps = []string{peers[rng.intn(4)]}
 						}
 						for _, p := range ps {
 							add(path, mode, p, tk, k, uint64(rng.intn(2)*7))
@@ -599,13 +628,22 @@ func TestVerifC14(t *testing.T) {
 			// creation times in the past (application built the bundle earlier): sequential only,
 			// the concurrent outcome depends on the interleaving of update and clean
 			add("sb", "seq", peers[rng.intn(4)], "old2m", k, 0)
-			add("agent", "seq", peers[rng.intn(4)], "old2m", k, 0)
-			add("sb", "seq", peers[rng.intn(4)], "old2d", k, 0)
-			for _, path := range []string{"report", "report2"} {
-				for _, mode := range []string{"seq", "conc"} {
-					add(path, mode, peers[rng.intn(4)], "now", k, 0)
-					add(path, mode, peers[rng.intn(4)], "now", k, 0)
-				}
+			if k%2 == 0 || verifThorough() {
+				add("agent", "seq", peers[rng.intn(4)], "old2m", k, 0)
+			}
+			if k == 2 || k == 5 || k == 8 || verifThorough() {
+				// older than the IdKeeper's retention: the known finding
+				add("sb", "seq", peers[rng.intn(4)], "old2d", k, 0)
+			}
+			for _, mode := range []string{"seq", "conc"} {
+				add("sreport", mode, peers[rng.intn(4)], "now", k, 0)
+			}
+			add("report", "conc", peers[rng.intn(4)], "now", k, 0)
+			add("report2", "conc", peers[rng.intn(4)], "now", k, 0)
+			if k%2 == 0 || verifThorough() {
+				add("report", "seq", peers[rng.intn(4)], "now", k, 0)
+			} else {
+				add("report2", "seq", peers[rng.intn(4)], "now", k, 0)
 			}
 		}
 	}
@@ -619,7 +657,7 @@ func TestVerifC14(t *testing.T) {
 		groups = sel
 	}
 
-	workers := 6
+	workers := 8
 	var wg sync.WaitGroup
 	jobs := make(chan *c14Group)
 	for i := 0; i < workers; i++ {
@@ -642,7 +680,7 @@ func TestVerifC14(t *testing.T) {
 	coincide, reports := 0, 0
 	for _, g := range groups {
 		fmt.Fprintln(w, g.result)
-		if strings.HasPrefix(g.path, "report") {
+		if strings.Contains(g.path, "report") {
 			// statistic: how many originated reports shared their (source, millisecond) with another one
 			if i := strings.Index(g.result, " snap="); i >= 0 {
 				cnt := map[string]int{}
